@@ -18,6 +18,7 @@ import (
 	"github.com/ipfs/go-graphsync"
 	"github.com/ipfs/go-graphsync/ipldutil"
 	gsmsg "github.com/ipfs/go-graphsync/message"
+	"github.com/ipfs/go-graphsync/panics"
 	"github.com/ipfs/go-graphsync/responsemanager/hooks"
 	"github.com/ipfs/go-graphsync/responsemanager/responseassembler"
 )
@@ -46,6 +47,8 @@ type ResponseTask struct {
 	Traverser      ipldutil.Traverser
 	Signals        ResponseSignals
 	ResponseStream ResponseStream
+	// PanicCallback is told about a panic raised by the block loader
+	PanicCallback panics.CallBackFn
 }
 
 // ResponseSignals are message channels to communicate between the manager and the QueryExecutor
@@ -219,8 +222,14 @@ func (qe *QueryExecutor) loadBlock(ctx context.Context, taskData ResponseTask, l
 	defer span.End()
 
 	log.Debugf("will load link=%s", lnk)
-	result, err := taskData.Loader(lnkCtx, lnk)
+	result, err := safeLoad(taskData, lnkCtx, lnk)
 
+	if rerr, isPanic := err.(panics.RecoveredPanicErr); isPanic {
+		// a panic in the storage read function fails this request, like a panic inside the traversal does
+		log.Errorf("panic loading link=%s, nBlocksRead=%d", lnk, taskData.Traverser.NBlocksTraversed())
+		taskData.Traverser.Error(rerr)
+		return nil, rerr
+	}
 	if err != nil {
 		log.Errorf("failed to load link=%s, nBlocksRead=%d, err=%s", lnk, taskData.Traverser.NBlocksTraversed(), err)
 		taskData.Traverser.Error(traversal.SkipMe{})
@@ -245,6 +254,16 @@ func (qe *QueryExecutor) loadBlock(ctx context.Context, taskData ResponseTask, l
 	}
 	log.Debugf("successfully loaded link=%s, nBlocksRead=%d", lnk, taskData.Traverser.NBlocksTraversed())
 	return data, nil
+}
+
+// safeLoad calls the block loader (user supplied storage code) and turns a panic into an error
+func safeLoad(taskData ResponseTask, lnkCtx ipld.LinkContext, lnk ipld.Link) (result io.Reader, err error) {
+	defer func() {
+		if rerr := panics.MakeHandler(taskData.PanicCallback)(recover()); rerr != nil {
+			result, err = nil, rerr
+		}
+	}()
+	return taskData.Loader(lnkCtx, lnk)
 }
 
 func (qe *QueryExecutor) sendResponse(ctx context.Context, p peer.ID, taskData ResponseTask, link ipld.Link, data []byte) error {
